@@ -105,14 +105,19 @@ def run_wrapper(has_main, alt, nf, nc, fail_main, fail_f, fail_c, skip_failed, n
     seen_pools = []
     run_wrapper.seen_pools = seen_pools
 
+    seen_deny = []
+    run_wrapper.seen_deny = seen_deny
+
     def main(**kw):
         calls.append('MAIN')
+        seen_deny.append(('M', set(kw['denylist'])))
         if fail_main:
             raise Boom('MAIN')
         return ({'PM': [_Label('LM')], 'SHARED': [_Label('LM')]}, 'dg', 'pg')
 
     def fusion(variant, **kw):
         calls.append(variant.id)
+        seen_deny.append(('F', set(kw['denylist'])))
         seen_pools.append(('F', list(kw['variant_pool']['TX'].transcriptional)))
         i = int(variant.id[3:])
         if fail_f[i]:
@@ -121,6 +126,7 @@ def run_wrapper(has_main, alt, nf, nc, fail_main, fail_f, fail_c, skip_failed, n
 
     def circ(record, **kw):
         calls.append(record.id)
+        seen_deny.append(('C', set(kw['denylist'])))
         seen_pools.append(('C', list(kw['variant_pool']['TX'].transcriptional)))
         i = int(record.id[4:])
         if fail_c[i]:
@@ -129,7 +135,7 @@ def run_wrapper(has_main, alt, nf, nc, fail_main, fail_f, fail_c, skip_failed, n
 
     series = _Series(has_main, nf, nc, alt)
     pool = _PoolFake(series)
-    with patched((cvp, 'call_canonical_peptides', lambda **kw: set()),
+    with patched((cvp, 'call_canonical_peptides', lambda **kw: {'CANON'}),
                  (cvp, 'call_peptide_main', main),
                  (cvp, 'call_peptide_fusion', fusion),
                  (cvp, 'call_peptide_circ_rna', circ),
@@ -367,3 +373,34 @@ def c05_added_fusion_only_adds(has_main: bool, alt: bool, nf: int, nc: int, nct:
     post: _ >= 0
     """
     return _added_fusion(has_main, alt, concretize(nf, 0, 1), concretize(nc, 0, 2), nct)
+
+
+# ------------------------------------------------------------------ deny-list seen by every unit
+def _denylists(has_main, alt, nf, nc, nct):
+    """every unit must be called with the transcript's canonical peptides in its deny-list; the circRNA units in addition
+    with the peptides the linear transcript already produced (so that they are not reported twice)"""
+    run_wrapper(has_main, alt, nf, nc, False, [False, False], [False, False], False, nct)
+    main_ran = has_main and (not nct or alt)
+    for kind, deny in run_wrapper.seen_deny:
+        if 'CANON' not in deny:
+            return -1              # a unit was called without the canonical peptides of the transcript
+        if kind == 'C' and main_ran and not {'PM', 'SHARED'} <= deny:
+            return -2              # circRNA called without the peptides of the linear transcript
+        if kind in ('M', 'F') and ('PM' in deny):
+            return -3
+    return OK
+
+
+@cond('C05', bounds='per-transcript wrapper: main unit present or not, --noncanonical-transcripts symbolic, 0..2 fusions, 0..2 '
+      'circRNAs; no failures', encodes=ENC, stubs=STUBS,
+      codes={-1: 'a unit was called without the canonical peptides of the transcript in its deny-list (a restrictive switch or a '
+                 'circRNA-only input would then report canonical peptides)',
+             -2: 'a circRNA unit was called without the peptides already produced by the linear transcript',
+             -3: 'the main / fusion unit was called with peptides of the linear transcript already deny-listed'},
+      shim=False, timeout=300)
+def c05_unit_denylists(has_main: bool, alt: bool, nf: int, nc: int, nct: bool) -> int:
+    """
+    pre: 0 <= nf <= 2 and 0 <= nc <= 2
+    post: _ >= 0
+    """
+    return _denylists(has_main, alt, concretize(nf, 0, 2), concretize(nc, 0, 2), nct)
